@@ -268,10 +268,10 @@ def run_matrix(ctx, A, origin, st, is_stochastic):
     for x in nojit:
         if [i for i in range(n) if x[i] != 0] != supp0:
             ctx.fail("gth_options", "use_jit=False selects a different class", inp, x.tolist(), jit[0].tolist())
-    # exact Q instance: every case in the thorough tier; in the quick tier all n<=6 and every third larger one
+    # exact Q instance: every case in the thorough tier; in the quick tier all n<=6 and every fourth larger one
     # (the float instance is compared bit-exactly on all, and the Fraction oracle above is exact on all)
     st["big"] += n >= 7
-    doq = ctx.tier == "thorough" or n <= 6 or st["big"] % 3 == 1
+    doq = ctx.tier == "thorough" or n <= 6 or st["big"] % 4 == 1
     ctx.count("coq_Q_instance:" + ("run" if doq else "skipped_quick_tier"))
     st["gth"].append(tup(blit(doq), "%d%%nat" % n, ql2(Afl), fl2(Afl), flist(jit[0]), qlist([frac(v) for v in jit[0]]),
                          qlist([frac(v) for v in nojit[0]])))
@@ -400,6 +400,8 @@ def run(ctx):
             run_matrix(ctx, to_generator(W), "nearly_decomposable_generator", st, False)
     # 4. sparse P with stored zeros: same graph, same number of rows
     stored_zero_stream(ctx)
+    # 5. hardening audit: dress/dtype, object reuse and call order, aliasing, optional arguments, boundaries, errors
+    harden_stream(ctx, st)
     # ---------------- Coq: float instance bit-exact, Q instance within n*1e-13 relative
     def spread(cases, meta):   # deterministic shuffle so that expensive (large n) cases are spread over the chunks
         idx = list(range(len(cases)))
@@ -410,15 +412,163 @@ def run(ctx):
     ok = ("fun c => let '(doq, n, AQ, AF, xf, xq, xnj) := c in let tol := (Z.of_nat n # 10000000000000) in "
           "Fs_eq (gthF n AF) xf && (if doq then let xe := gthQ n AQ in Qs_relclose' tol xq xe && Qs_relclose' tol xnj xe else true)")
     bad = ctx.coq_check("gth_solve", IMPORTS, "bool * nat * list (list Q) * list (list float) * list float * list Q * list Q",
-                        ok, st["gth"], chunk=16)
+                        ok, st["gth"], chunk=16 if ctx.tier == "thorough" else 32)
     for i in bad[:10]:
         ctx.mismatch("C02.Model.gthF (bit-exact) / gthQ (rel n*1e-13) vs gth_solve", st["gth_meta"][i])
     ok = ("fun c => let '(doq, n, AQ, AF, rf, rq) := c in let tol := (Z.of_nat n # 10000000000000) in "
           "Fss_eq (stationaryF n AF) rf && (if doq then Qss_relclose' tol rq (stationaryQ n AQ) else true)")
     bad = ctx.coq_check("stationary_distributions", IMPORTS, "bool * nat * list (list Q) * list (list float) * list (list float) * list (list Q)",
-                        ok, st["sd"], chunk=16)
+                        ok, st["sd"], chunk=16 if ctx.tier == "thorough" else 32)
     for i in bad[:10]:
         ctx.mismatch("C02.Model.stationaryF (bit-exact) / stationaryQ (rel n*1e-13) vs MarkovChain.stationary_distributions", st["sd_meta"][i])
+
+
+def harden_stream(ctx, st):
+    from scipy import sparse
+    from quantecon import MarkovChain, mc_compute_stationary
+    from quantecon.markov.gth_solve import gth_solve
+    rng = ctx.rng
+
+    def guarded(inp, f):
+        try:
+            return f()
+        except Exception as ex:
+            ctx.fail("exception", "exception on a valid input: " + repr(ex)[:200], inp, repr(ex), None)
+            return None
+
+    def rows(sd):
+        sd = np.asarray(sd)
+        return sorted(sd.tolist(), key=lambda r: [i for i in range(len(r)) if r[i] != 0])
+
+    mats = []
+    for _ in range(5):
+        mats.append(np.array([[float(v) for v in r] for r in stored_dtype_chain(rng, "dyadic", True)]))
+        mats.append(np.array([[float(v) for v in r] for r in stored_dtype_chain(rng, "int", True)]))
+    for _ in range(3):
+        mats.append(np.array([[float(v) for v in r] for r in stored_dtype_chain(rng, "dyadic", False)]))
+    mats.append(np.array([[1.0]]))
+    mats.append(np.array([[0.5, 0.5], [0.0, 1.0]]))
+    live = []
+    for P in mats:
+        n = P.shape[0]
+        inp0 = {"A": P.tolist(), "origin": "harden"}
+        run_matrix(ctx, P, "harden_reference", st, True)     # oracle + Coq on the canonical form
+        xref = guarded(inp0, lambda: gth_solve(P))
+        sref = guarded(inp0, lambda: rows(MarkovChain(P).stationary_distributions))
+        if xref is None or sref is None:
+            continue
+        onehot = bool(np.all((P == 0) | (P == 1)))
+        big = np.full((2 * n, 2 * n), 7.0)
+        big[::2, ::2] = P
+        tall = np.vstack([P, np.full((2, n), 3.0)])
+        # ---- class 1 + 4: gth_solve dress and optional arguments
+        gd = {"list": P.tolist(), "tuple": tuple(map(tuple, P.tolist())), "list_of_arrays": [r for r in P],
+              "float32": P.astype(np.float32), "noncontiguous_view": big[::2, ::2], "rows_of_larger_array": tall[:n],
+              "F_order": np.asfortranarray(P), "scaled_int32": (P * 8).astype(np.int32), "scaled_int64": (P * 8).astype(np.int64)}
+        if onehot:
+            gd["bool"] = P.astype(bool)
+            gd["uint8"] = P.astype(np.uint8)
+        for name, M in gd.items():
+            for kw in ({}, {"overwrite": False, "use_jit": True}, {"overwrite": False}, {"use_jit": True}, {"overwrite": True}):
+                snap = np.array(M, copy=True) if isinstance(M, np.ndarray) else [list(r) for r in M]
+                x = guarded(dict(inp0, dress=name, kwargs=str(kw)), lambda: gth_solve(M, **kw))
+                ctx.count("dress:gth:" + name)
+                ctx.count("optional:" + (",".join(sorted(kw)) or "omitted"))
+                ctx.case(("harden_gth", tuple(map(tuple, P.tolist())), name, str(sorted(kw.items()))), nontrivial=n >= 2)
+                if x is None:
+                    continue
+                if not np.array_equal(x, xref) or x.dtype != np.float64:
+                    ctx.fail("dress", "gth_solve result depends on container/dtype/layout or on explicitly passed defaults",
+                             dict(inp0, dress=name, kwargs=str(kw)), x.tolist(), xref.tolist())
+                untouched = np.array_equal(np.asarray(M, dtype=float), np.asarray(snap, dtype=float))
+                if not kw.get("overwrite") and not untouched:
+                    ctx.fail("gth_argument_modified", "argument changed although overwrite is not requested", dict(inp0, dress=name, kwargs=str(kw)), None, None)
+                if isinstance(M, np.ndarray) and np.shares_memory(x, M):
+                    ctx.fail("alias", "result shares memory with the argument", dict(inp0, dress=name, kwargs=str(kw)), None, None)
+                if kw.get("overwrite") and isinstance(M, np.ndarray) and not untouched:
+                    M[...] = snap                       # restore the view for the next round
+        # class 3: successive results do not alias each other
+        x1 = gth_solve(P); x2 = gth_solve(P)
+        x1[...] = -1.0
+        ctx.count("alias:successive_results")
+        if not np.array_equal(x2, xref) or np.shares_memory(x1, x2):
+            ctx.fail("alias", "successive gth_solve results alias each other", inp0, x2.tolist(), xref.tolist())
+        # ---- class 1: MarkovChain P in every container / sparse format / dtype
+        md = {"list": P.tolist(), "tuple": tuple(map(tuple, P.tolist())), "float32": P.astype(np.float32),
+              "float16": P.astype(np.float16), "F_order": np.asfortranarray(P), "noncontiguous_view": big[::2, ::2]}
+        if onehot:
+            md["bool"] = P.astype(bool); md["int32"] = P.astype(np.int32)
+        for fmt in ("csr", "csc", "coo", "lil"):
+            md["sparse:" + fmt] = getattr(sparse, fmt + "_matrix")(P)
+            md["sparse:" + fmt + ":float32"] = getattr(sparse, fmt + "_matrix")(P.astype(np.float32))
+            if onehot:
+                md["sparse:" + fmt + ":int8"] = getattr(sparse, fmt + "_matrix")(P.astype(np.int8))
+        for name, M in md.items():
+            kw = rng.choice([{}, {"state_values": None}, {"state_values": list(range(10, 10 + n))}])
+            dinp = dict(inp0, dress="mc:" + name, kwargs=str(kw))
+            snap = M.copy() if hasattr(M, "copy") and not isinstance(M, (list, tuple)) else None
+            r = guarded(dinp, lambda: rows(MarkovChain(M, **kw).stationary_distributions))
+            r2 = guarded(dinp, lambda: rows(mc_compute_stationary(M)))
+            ctx.count("dress:mc:" + name.split(":float32")[0].split(":int8")[0])
+            ctx.case(("harden_sd", tuple(map(tuple, P.tolist())), name), nontrivial=n >= 2)
+            for got in (r, r2):
+                if got is not None and got != sref:
+                    ctx.fail("dress", "stationary_distributions depends on container/dtype/sparse format of P", dinp, got, sref)
+            if snap is not None:
+                same = (abs(M - snap).nnz == 0 and M.nnz == snap.nnz and M.dtype == snap.dtype) if sparse.issparse(M) else np.array_equal(M, snap)
+                if not same:
+                    ctx.fail("sd_argument_modified", "P modified", dinp, None, None)
+        live.append((P, sref))
+    # ---- class 2: objects reused, several alive at once, attributes read in different orders, simulate in between
+    objs = [(P, sref, MarkovChain(rng.choice([P, sparse.csr_matrix(P), P.tolist()]))) for (P, sref) in live]
+    steps = [(i, a) for i in range(len(objs)) for a in ("sd", "classes", "period", "simulate", "sd", "cyclic", "sd")]
+    rng.shuffle(steps)
+    for i, a in steps:
+        P, sref, m = objs[i]
+        inp = {"A": P.tolist(), "seq": a}
+        ctx.count("seq:" + a)
+        if a == "sd":
+            sd = guarded(inp, lambda: m.stationary_distributions)
+            if sd is None:
+                continue
+            if rows(sd) != sref:
+                ctx.fail("state", "stationary_distributions changes when the object is reused / read in another order", inp, rows(sd), sref)
+            if not sparse.issparse(m.P) and np.shares_memory(sd, m.P):
+                ctx.fail("alias", "stationary_distributions shares memory with P", inp, None, None)
+            Pn = m.P.toarray() if sparse.issparse(m.P) else np.asarray(m.P)
+            if not np.array_equal(np.asarray(Pn, dtype=float), P):
+                ctx.fail("sd_argument_modified", "MarkovChain.P changed by computing stationary distributions", inp, Pn.tolist(), P.tolist())
+        elif a == "classes":
+            guarded(inp, lambda: (m.recurrent_classes_indices, m.communication_classes_indices, m.is_irreducible))
+        elif a == "period":
+            guarded(inp, lambda: (m.period, m.is_aperiodic))
+        elif a == "simulate":
+            guarded(inp, lambda: m.simulate(6, random_state=3))
+        elif a == "cyclic":
+            try:
+                m.cyclic_classes_indices
+            except NotImplementedError:
+                pass
+            except Exception as ex:
+                ctx.fail("exception", "exception on a valid input: " + repr(ex)[:200], inp, repr(ex), None)
+    # ---- class 5/6: boundaries and documented errors
+    for name, arg, exp in (("1x1_zero", [[0.0]], [1.0]), ("1x1_int", [[5]], [1.0]), ("1x1_np_float32", np.array([[2.0]], dtype=np.float32), [1.0]),
+                           ("identity2", np.eye(2), None), ("zeros3", np.zeros((3, 3)), None)):
+        x = guarded({"call": name}, lambda: gth_solve(arg))
+        ctx.count("boundary:" + name)
+        if x is not None and (abs(float(np.sum(x)) - 1) > 1e-15 or np.any(x < 0) or (exp is not None and x.tolist() != exp)
+                              or int(np.count_nonzero(x)) != 1):
+            ctx.fail("gth_value", "degenerate input: not the unit vector of one absorbing state", {"call": name}, x.tolist(), exp)
+    for name, f in (("gth_nonsquare", lambda: gth_solve(np.ones((2, 3)))), ("gth_1d", lambda: gth_solve(np.ones(3))),
+                    ("gth_3d", lambda: gth_solve(np.ones((2, 2, 2))))):
+        ctx.count("error:" + name)
+        try:
+            f()
+            ctx.fail("missing_error", "documented ValueError not raised", {"call": name}, None, "ValueError")
+        except ValueError:
+            pass
+        except Exception as ex:
+            ctx.fail("missing_error", "wrong exception type", {"call": name}, repr(ex), "ValueError")
 
 
 def stored_zero_stream(ctx):
